@@ -44,7 +44,8 @@ UTypes ==
     Named |->
       [ kind |-> "INTERFACE", ifaces |-> <<>>, members |-> <<>>,
         fields |-> [ name |-> FD(S, <<>>),
-                     peer |-> FD(Named("Named"), <<>>) ] ],     \* implemented covariantly: A.peer : B, B.peer : A
+                     peer |-> FD(Named("Named"), <<>>),        \* implemented covariantly: A.peer : B, B.peer : A
+                     say  |-> FD(S, <<>>) ] ],                 \* the implementors add optional arguments of their own: A.say(mood), B.say(loud)
     A |->
       [ kind |-> "OBJECT", ifaces |-> <<"Named">>, members |-> <<>>,
         fields |->
@@ -56,6 +57,7 @@ UTypes ==
             boom |-> FD(S, <<>>),
             many |-> FD(S, <<>>),
             half |-> FD(S, <<>>),
+            say  |-> FD(S, <<AD("mood", I)>>),
             nest |-> FD(S, <<>>),
             wrong |-> FD(I, <<>>),
             flags |-> FD(ListOf(B), <<>>),
@@ -65,6 +67,7 @@ UTypes ==
         fields |->
           [ name |-> FD(S, <<>>),
             flag |-> FD(B, <<>>),
+            say  |-> FD(S, <<AD("loud", B)>>),
             peer |-> FD(Named("A"), <<>>) ] ],
     C |->
       [ kind |-> "OBJECT", ifaces |-> <<>>, members |-> <<>>,
@@ -90,15 +93,28 @@ UData ==
              need  |-> V("echo", 0), obj |-> V("echo", 0) ],
     m  |-> [ set |-> V("echo", 0), a |-> NodeV("a2") ],
     a1 |-> [ name |-> StrV("a1"), n |-> IntV(1), peer |-> NodeV("b1"), self |-> NodeV("a1"),
-             kids |-> ListV(<<NodeV("a2")>>), boom |-> ErrV("boom fails"), many |-> V("errs", 2), half |-> V("errval", "part"), nest |-> V("errsn", 2),
+             kids |-> ListV(<<NodeV("a2")>>), boom |-> ErrV("boom fails"), many |-> V("errs", 2), half |-> V("errval", "part"), nest |-> V("errsn", 2), say |-> V("echo", 0),
              wrong |-> StrV("n/a"), flags |-> ListV(<<BoolV(TRUE), StrV("maybe"), NullV, BoolV(FALSE)>>), tag |-> V("echo", 0) ],
     a2 |-> [ name |-> StrV("a2"), n |-> IntV(2), peer |-> NodeV("b1"), self |-> NodeV("a2"),
-             kids |-> ListV(<<>>), boom |-> ErrV("boom fails"), many |-> V("errs", 3), half |-> V("errval", "part"), nest |-> V("errsn", 1),
+             kids |-> ListV(<<>>), boom |-> ErrV("boom fails"), many |-> V("errs", 3), half |-> V("errval", "part"), nest |-> V("errsn", 1), say |-> V("echo", 0),
              wrong |-> StrV("n/a"), flags |-> ListV(<<>>), tag |-> V("echo", 0) ],
-    b1 |-> [ name |-> StrV("b1"), flag |-> BoolV(TRUE), peer |-> NodeV("a1") ] ]
+    b1 |-> [ name |-> StrV("b1"), flag |-> BoolV(TRUE), peer |-> NodeV("a1"), say |-> V("echo", 0) ] ]
 
 UExec == [ types |-> UTypes, nodeType |-> UNodeType, data |-> UData,
            roots |-> [ query |-> "q", mutation |-> "m" ], nth |-> {} ]
+
+\* ---- U-top: the query root type is NOT called Query (schema { query: Top }) and an ordinary object type IS
+NoFields == [x \in {} |-> 0]
+UTop ==
+  [ types |->
+      [ Top |-> [ kind |-> "OBJECT", ifaces |-> <<>>, members |-> <<>>,
+                  fields |-> [ title |-> FD(S, <<>>), q |-> FD(Named("Query"), <<>>), qs |-> FD(ListOf(Named("Query")), <<>>) ] ],
+        Query |-> [ kind |-> "OBJECT", ifaces |-> <<>>, members |-> <<>>,
+                    fields |-> [ name |-> FD(S, <<>>), n |-> FD(I, <<>>), self |-> FD(Named("Query"), <<>>) ] ] ],
+    nodeType |-> [ t |-> "Top", q1 |-> "Query" ],
+    data |-> [ t |-> [ title |-> StrV("T"), q |-> NodeV("q1"), qs |-> ListV(<<NodeV("q1"), NullV>>) ],
+               q1 |-> [ name |-> StrV("q1"), n |-> IntV(1), self |-> NodeV("q1") ] ],
+    roots |-> [ query |-> "t" ], nth |-> {} ]
 
 \* U with the resolver calls in `faults` (<<node, field>>) made to fail and the list accessors
 \* (<<node, field, index as string>>) made to fail  (C06)
